@@ -383,6 +383,8 @@ class Builtins:
                 return a + b
             if isinstance(a, (str, SStr)) and isinstance(b, (str, SStr)):
                 return str_concat(a, b)
+            if (isinstance(a, tuple) and isinstance(b, list)) or (isinstance(a, list) and isinstance(b, tuple)):
+                raise Raise(self.make_exc("TypeError", "can only concatenate list to list / tuple to tuple"), I.where())
         if t is ast.Mult and ((isinstance(a, (list, tuple)) and isinstance(b, int)) or (isinstance(b, (list, tuple)) and isinstance(a, int))):
             seq, n = (a, b) if isinstance(a, (list, tuple)) else (b, a)
             if isinstance(n, bool):
@@ -392,7 +394,7 @@ class Builtins:
                 I.heap_log.append(("alloc-list", id(r), None, I.where()))
             return r
         if isinstance(a, (list, tuple, SDict, SSet)) or isinstance(b, (list, tuple, SDict, SSet)):
-            raise Unsupported(f"operator {t.__name__} on containers is not modelled")
+            raise Unsupported(f"operator {t.__name__} on containers is not modelled ({type(a).__name__}, {type(b).__name__}) at {I.where()}")
         if not (is_num(a) and is_num(b)):
             raise Raise(self.make_exc("TypeError", f"unsupported operand types for {t.__name__}: {a!r}, {b!r}"), I.where())
         ta, tb = num_term(a), num_term(b)
